@@ -657,7 +657,11 @@ int batch_main(int argc, char** argv, Engine<Case, Verdict> const& eng)
     Case c = eng.gen(prop, rs, tier);
     bool crashed;
     Verdict first = run_forked(eng, c, scratch, crashed);
-    if (first.kind != 1 || sig(first) != key)
+    // A crash is one class whatever signal ends the process: which one it is (SIGSEGV, SIGABRT from the allocator, SIGBUS)
+    // depends on what the corrupted memory happens to hold, so a crash reproduces if the re-execution crashes too.
+    auto same_class = [](std::string const& a, std::string const& b)
+    { return a == b || (a.rfind("crash:", 0) == 0 && b.rfind("crash:", 0) == 0); };
+    if (first.kind != 1 || !same_class(sig(first), key))
     {
       printf("HARNESS-ERROR: violation %s of seed %lu did not reproduce (got %s)\n", tag.c_str(), rs, first.tag.c_str());
       exit_code = 2;
@@ -673,7 +677,7 @@ int batch_main(int argc, char** argv, Engine<Case, Verdict> const& eng)
       }
       bool cr;
       Verdict v = run_forked(eng, cand, scratch, cr);
-      return v.kind == 1 && sig(v) == key;
+      return v.kind == 1 && same_class(sig(v), key);
     };
     if (!no_min)
     {
@@ -703,7 +707,8 @@ int batch_main(int argc, char** argv, Engine<Case, Verdict> const& eng)
     }
     bool c1, c2;
     Verdict g1 = run_forked(eng, m, scratch, c1), g2 = run_forked(eng, m, scratch, c2);
-    if (g1.kind != 1 || g2.kind != 1 || sig(g1) != key || sig(g2) != key || g1.hash != g2.hash)
+    bool const is_crash = key.rfind("crash:", 0) == 0;
+    if (g1.kind != 1 || g2.kind != 1 || !same_class(sig(g1), key) || !same_class(sig(g2), key) || (!is_crash && g1.hash != g2.hash))
     {
       printf("HARNESS-ERROR: minimised case for %s (seed %lu) does not replay deterministically\n", tag.c_str(), rs);
       exit_code = 2;
